@@ -480,6 +480,14 @@ func (rg *ranger) binop(x *ssa.BinOp, at *ssa.BasicBlock, depth int) itv {
 			// unsigned subtraction may wrap: only nonZero information survives
 			return itv{lo: 0, hi: posInf}
 		}
+		// a - b computed under a dominating guard a >= b (or a > b) is non-negative
+		if r.lo < 0 && !isUnsigned(x.Type()) && at != nil && guardedDifference(x, at) {
+			r.lo = 0
+			if r.why != "" {
+				r.why += "; "
+			}
+			r.why += "difference under the guard a >= b"
+		}
 		return r
 	case token.MUL:
 		c := []int64{satMul(a.lo, b.lo), satMul(a.lo, b.hi), satMul(a.hi, b.lo), satMul(a.hi, b.hi)}
